@@ -19,6 +19,8 @@ def run(ctx):
     ctx.rule("T7", floor=9, what="derived policies of the two backends agree")
     for name in pols["py"]:
         tables.check_siblings(ctx, name, cfgs[name][1], pols["py"][name], pols["pyx"][name])
+    from ..rules.unquoters import pending_flush
+    pending_flush(ctx, ctx.model, "pyx")   # the compiled unquoter holds incomplete sequences in a byte buffer: no emission overtakes it
     for b in ("py", "pyx"):
         Unquoter(ctx, ctx.model, b).audit()
     ip, mp = inner_quoters(ctx.model, "_quoting_py")
